@@ -11,9 +11,18 @@ import (
 	"verifharness/internal/x05plugin"
 )
 
-var lastWriteMs int64
+var (
+	lastWriteMs int64
+	lastText    string
+)
 
+// a run that starts from the file content the previous run left does not touch the file: every plugin instance started
+// earlier in this process still has its refresher running and would reload on a new modification time
 func writePolicies(path, text string) int64 {
+	if text == lastText && lastWriteMs != 0 {
+		return lastWriteMs
+	}
+	lastText = text
 	for time.Now().UnixMilli() <= lastWriteMs+3 { // the plugin compares modification times in milliseconds, strictly
 		time.Sleep(time.Millisecond)
 	}
